@@ -8,4 +8,4 @@ ASSUMPTIONS = conn.COMMON_ASSUMPTIONS + ["A-LOOP(timers): call_at callbacks run 
 
 
 def targets(eng):
-    return conn.targets_for(eng, ["_async_send_keep_alive", "_async_pong_not_received", "process_packet", "lemma:keepalive-window"], ["C10"])
+    return conn.targets_for(eng, ["__init__", "_async_send_keep_alive", "_async_pong_not_received", "process_packet", "lemma:keepalive-window"], ["C10"])
